@@ -16,6 +16,9 @@ type gen struct {
 	nilOK bool // nil payloads may be drawn for blobs and arrays
 	small bool // draw only from tiny pools (so that equalities and orderings between draws are frequent)
 
+	cluster     bool // draw scalars from one neighbourhood (see f32Bases)
+	clusterBase int
+
 	nanType byte // when non-zero: NaN is drawn only inside leaves of this type (one NaN-bearing type per case)
 }
 
@@ -33,8 +36,16 @@ var keyPool = []string{"", "a", "b", "c", "d", "k1", "k2", "키", "x y", "e", "f
 var ikeyPool = []int32{0, 1, 2, 3, -1, 101, 102, 203, math.MaxInt32, math.MinInt32, 7}
 
 func (g *gen) i64() int64 {
+	if g.cluster {
+		return i64Bases[g.clusterBase%len(i64Bases)] + int64(g.r.Intn(4))
+	}
 	if g.small {
 		return int64(g.r.Intn(3))
+	}
+	if g.r.Chance(1, 5) {
+		// neighbours beyond 2^53 and around the 32-bit edges (collapse when routed through a
+		// double or a narrower integer)
+		return []int64{1 << 53, 1 << 62, math.MaxInt64 - 3, math.MinInt64, 1 << 32, -(1 << 32), 1 << 31}[g.r.Intn(7)] + int64(g.r.Intn(4))
 	}
 	if g.r.Bool() {
 		return i64Pool[g.r.Intn(len(i64Pool))]
@@ -52,12 +63,35 @@ func (g *gen) i32() int32 {
 	return g.r.I32()
 }
 
+// cluster mode: every scalar draw of this generator comes from ONE neighbourhood (a base value
+// plus 0..24 ulps / 0..3 integer steps), so pairs and triples of distinct-but-adjacent values
+// are the rule, not the exception.
+var f32Bases = []float32{1, -1, 1.5, 2, 0.1, 100, 1e6, 16777216}
+var f64Bases = []float64{1, -1, 1.5, 2, 0.1, 100, 1e6, 9007199254740992}
+var i64Bases = []int64{1 << 53, 1 << 62, math.MaxInt64 - 3, math.MinInt64, 1 << 32, -(1 << 32), 1 << 31, 0}
+
 func (g *gen) f32() float32 {
+	if g.cluster {
+		b := f32Bases[g.clusterBase%len(f32Bases)]
+		for k := g.r.Intn(25); k > 0; k-- {
+			b = math.Nextafter32(b, float32(math.Inf(1)))
+		}
+		return b
+	}
 	if g.nan && g.r.Chance(2, 5) {
 		return math.Float32frombits(nan32Bits[g.r.Intn(len(nan32Bits))])
 	}
 	if g.small {
 		return float32(g.r.Intn(3))
+	}
+	if g.r.Chance(1, 4) {
+		// neighbours: a few ulps around a handful of bases, so that distinct values that are
+		// "almost equal" (and integers that collapse in a narrower type) meet in pairs and triples
+		b := []float32{1, -1, 1.5, 2, 0.1, 100, 1e6, 16777216}[g.r.Intn(8)]
+		for k := g.r.Intn(25); k > 0; k-- {
+			b = math.Nextafter32(b, float32(math.Inf(1)))
+		}
+		return b
 	}
 	if g.r.Bool() {
 		return f32Pool[g.r.Intn(len(f32Pool))]
@@ -66,11 +100,25 @@ func (g *gen) f32() float32 {
 }
 
 func (g *gen) f64() float64 {
+	if g.cluster {
+		b := f64Bases[g.clusterBase%len(f64Bases)]
+		for k := g.r.Intn(25); k > 0; k-- {
+			b = math.Nextafter(b, math.Inf(1))
+		}
+		return b
+	}
 	if g.nan && g.r.Chance(2, 5) {
 		return math.Float64frombits(nan64Bits[g.r.Intn(len(nan64Bits))])
 	}
 	if g.small {
 		return float64(g.r.Intn(3))
+	}
+	if g.r.Chance(1, 4) {
+		b := []float64{1, -1, 1.5, 2, 0.1, 100, 1e6, 9007199254740992}[g.r.Intn(8)]
+		for k := g.r.Intn(25); k > 0; k-- {
+			b = math.Nextafter(b, math.Inf(1))
+		}
+		return b
 	}
 	if g.r.Bool() {
 		return f64Pool[g.r.Intn(len(f64Pool))]
